@@ -630,6 +630,56 @@ def r16_numeric_types_are_interchangeable_at_run_time(ctx, rule="C12.R16"):
     ctx.require(rule, 15)
 
 
+def r17_for_checks_every_bound_and_the_step(ctx, rule="C12.R17"):
+    """`an accepted program never raises Type mismatch`: the lower bound, the upper bound and the STEP of a FOR
+    are all combined with the counter at run time (assignment, comparison, addition), so the FOR checker asks of
+    each of the three whether it can be cast to the counter's type.  In the checker's function that applies the
+    cast-compatibility predicate to parts of a ForLoop node, all three expression fields reach the predicate -
+    directly, or through the array / iterator the function loops over."""
+    prog = ctx.prog
+    want = {"lower_bound", "upper_bound", "step"}
+    n = 0
+    for f in sorted(prog.fns.values(), key=lambda f: f.id):
+        if f.crate != "rusty_linter" or f.body is None or "post_linter" not in f.id:
+            continue
+        body = f.body
+        if not any("ForLoop" in body.locals[i]["ty"] for i in range(1, f.argc + 1)):
+            continue
+        calls = [(b, t) for b, t in body.calls() if mir.callee_path(t).split("::")[-1] == "can_cast_to" and t["args"]]
+        if not calls:
+            continue
+        pv = mir.Prov(body)
+        got = set()
+
+        def fields_of(o):
+            mir.origin_mentions(o, lambda z: got.add(z[2]) if z[0] == "field" and z[2] in want else None)
+
+        through_iter = False
+        for _b, t in calls:
+            o = pv.of_operand(t["args"][0])
+            fields_of(o)
+            if mir.origin_mentions(o, lambda z: z[0] in ("index", "local") or (z[0] == "call" and z[1].split("::")[-1] in ("next", "into_iter", "iter", "flatten"))):
+                through_iter = True
+        if through_iter:
+            for blk in body.blocks:
+                if blk.get("c"):
+                    continue
+                for st in blk["s"]:
+                    r = st.get("r", {})
+                    if st["k"] == "assign" and r.get("k") == "agg" and r.get("a") in ("array", "tuple"):
+                        for op in r["ops"]:
+                            fields_of(pv.of_operand(op))
+        n += 1
+        name = f.path.split("::", 1)[1]
+        ctx.decide(got >= want, rule, "%s:%s" % (rule, name), f.loc,
+                   "lower bound, upper bound and step all reach can_cast_to",
+                   "%s applies the cast-compatibility predicate to %s only; %s of the FOR is not asked whether it can be "
+                   "cast to the counter's type: `FOR k%% = 1 TO 9 STEP inc$` is accepted and raises Type mismatch at run time"
+                   % (name, sorted(got), sorted(want - got)))
+    ctx.analysed_units(rule, for_checkers=n)
+    ctx.require(rule, 1)
+
+
 def run(ctx):
     common.install(ctx)
     T = ot.OpTables(ctx.prog)
@@ -651,3 +701,4 @@ def run(ctx):
     c01.r3_determinism(ctx, "C12.R14")
     c08.r13_argument_validators_mean_what_they_say(ctx, "C12.R15")
     r16_numeric_types_are_interchangeable_at_run_time(ctx)
+    r17_for_checks_every_bound_and_the_step(ctx)
